@@ -133,6 +133,20 @@ CHECKS["C13"] = dict(
          "clock and a subset on a real NamingActor in real time.",
     note="H = 1, T = 3 ticks in generation; propagation to other nodes is C15", design_ref="5 C13")
 
+CHECKS["C19"] = dict(
+    engine="sequence",
+    technique="TLA+ spec Sequence.tla (named-sequence range protocol with SeqGroup transcription; history-id stamping with "
+              "batch marks, leader change, replay), TLC invariants Unique/Monotone/BelowCounter, trace validation of real "
+              "SeqGroup protocol runs and of recorded id streams of a real single-member Raft node",
+    text="TLC checks uniqueness and per-node monotonicity for 2 nodes with in-flight range requests, and for history ids "
+         "across leader change and log replay (a skipped batch mark and out-of-order responses are negative controls). "
+         "Bound to the code by (a) action-by-action validation of protocol runs on the real SeqGroup objects, where the "
+         "spec re-computes every id, and (b) black-box validation of the ids a real node returns under concurrent "
+         "requests, publish bursts crossing the 100-id batch, compactions and restarts.",
+    note="one real Raft member; multi-node draws and leader change are model-level plus replicated-counter semantics "
+         "(C07); response reordering inside the actor is a stated scheduling assumption",
+    design_ref="5 C19")
+
 NOT_YET = {}
 
 
